@@ -34,10 +34,6 @@ type DecoratorResolver struct {
 func (r *DecoratorResolver) ResolveIdent(file *ast.File, parent ast.Node, parentField string, id *ast.Ident) (string, error) {
 	verifhook.Point("goast.ResolveIdent")
 
-	if r.RestorerResolver == nil {
-		r.RestorerResolver = guess.New()
-	}
-
 	imports, err := r.imports(file)
 	if err != nil {
 		return "", err
@@ -70,6 +66,12 @@ func (r *DecoratorResolver) imports(file *ast.File) (map[string]string, error) {
 	r.filesM.Lock()
 	defer r.filesM.Unlock()
 	verifhook.Point("goast.imports.locked")
+
+	// The default resolver is set while holding the lock, so the resolver can be shared between
+	// goroutines.
+	if r.RestorerResolver == nil {
+		r.RestorerResolver = guess.New()
+	}
 
 	if r.files == nil {
 		r.files = map[*ast.File]map[string]string{}
